@@ -514,6 +514,25 @@ recipe('expr/weighted-comp', [OPER + 'OperatorComp'], linear=True, deriv=True)(
     lambda ctx: _L(ctx, 'A', W3(), A3()) * _L(ctx, 'B', R(2), W3()))
 recipe('expr/discr-sum', [OPER + 'OperatorSum'], linear=True, deriv=True)(
     lambda ctx: odl.PartialDerivative(D3(), 0, pad_mode='order1') + 2 * odl.IdentityOperator(D3()))
+# wrappers around an inner operator that must not be called with aliased input and output (finite differences
+# document that): the wrapper has to keep its temporaries apart
+_PD = lambda pad='order1': odl.PartialDerivative(D3(), 0, pad_mode=pad)          # noqa
+recipe('expr/RightVectorMult/finite-difference', [OPER + 'OperatorRightVectorMult'], linear=True, deriv=True)(
+    lambda ctx: _PD() * ctx.element(D3(), 'v'))
+recipe('expr/LeftVectorMult/finite-difference', [OPER + 'OperatorLeftVectorMult'], linear=True, deriv=True)(
+    lambda ctx: ctx.element(D3(), 'v') * _PD())
+recipe('expr/RightScalarMult/finite-difference', [OPER + 'OperatorRightScalarMult'], linear=True, deriv=True)(
+    lambda ctx: _PD() * ctx.real('a', nonzero=True))
+recipe('expr/LeftScalarMult/finite-difference', [OPER + 'OperatorLeftScalarMult'], linear=True, deriv=True)(
+    lambda ctx: ctx.real('a', nonzero=True) * _PD())
+recipe('expr/Comp/finite-differences', [OPER + 'OperatorComp'], linear=True, deriv=True)(
+    lambda ctx: _PD('order0') * _PD('constant'))
+recipe('expr/Sum/finite-differences', [OPER + 'OperatorSum'], linear=True, deriv=True)(
+    lambda ctx: _PD('order0') + odl.Laplacian(D3(), pad_mode='symmetric'))
+recipe('expr/VectorSum/finite-difference', [OPER + 'OperatorVectorSum'], deriv=True)(
+    lambda ctx: _PD() + ctx.element(D3(), 'v'))
+recipe('expr/PointwiseProduct/finite-differences', [OPER + 'OperatorPointwiseProduct'], deriv=True)(
+    lambda ctx: odl.OperatorPointwiseProduct(_PD('order0'), _PD('constant')))
 
 
 def unregistered():
